@@ -8,28 +8,33 @@ RT_SCRIPT = r'''
 from pyvc.source import Source
 from bounded import gen
 src = Source(os.environ.get("VERIF_REPO", "/repo")); mods = src.import_native()
-g = gen.G(mods, %(seed)d)
 kind = %(kind)r
-obj = getattr(g, kind)()
-if isinstance(obj, tuple): obj = obj[0]
 view = getattr(gen, "view_" + kind, None)
-try:
-    s = obj.dumps()
-except Exception as ex:
-    REPRODUCED("a valid %%s (generator seed %(seed)d) is refused by dumps(): %%r" %% (kind, ex))
-o2 = type(obj)()
-try:
-    o2.loads(s)
-except Exception as ex:
-    REPRODUCED("the library cannot re-read what it wrote (seed %(seed)d): %%r" %% (ex,))
-if view is not None:
-    a, b = view(obj), view(o2)
-else:
-    a, b = getattr(obj, kind), getattr(o2, kind)
-if a != b:
-    print("written :", a); print("re-read :", b)
-    REPRODUCED("content differs after a write/read cycle (seed %(seed)d)")
-if o2.dumps() != s: REPRODUCED("second dump differs from the first (seed %(seed)d)")
+junk = []
+# The generated object is rebuilt up to 40 times: sets of objects iterate in an order that depends on object addresses, so a failure
+# that needs one particular iteration order does not show on every rebuild (the property quantifies over all of them).
+for attempt in range(40):
+    junk.append([object() for _ in range(attempt * 7 + 1)])       # perturb addresses between attempts
+    g = gen.G(mods, %(seed)d)
+    obj = getattr(g, kind)()
+    if isinstance(obj, tuple): obj = obj[0]
+    try:
+        s = obj.dumps()
+    except Exception as ex:
+        REPRODUCED("a valid %%s (generator seed %(seed)d) is refused by dumps(): %%r" %% (kind, ex))
+    o2 = type(obj)()
+    try:
+        o2.loads(s)
+    except Exception as ex:
+        REPRODUCED("the library cannot re-read what it wrote (seed %(seed)d): %%r" %% (ex,))
+    if view is not None:
+        a, b = view(obj), view(o2)
+    else:
+        a, b = getattr(obj, kind), getattr(o2, kind)
+    if a != b:
+        print("written :", a); print("re-read :", b)
+        REPRODUCED("content differs after a write/read cycle (seed %(seed)d, rebuild %%d)" %% attempt)
+    if o2.dumps() != s: REPRODUCED("second dump differs from the first (seed %(seed)d, rebuild %%d)" %% attempt)
 NOT_REPRODUCED()
 '''
 
